@@ -37,13 +37,13 @@ INV_P = ['NcNoLeak', 'NcDepsExact', 'NcAligned', 'NcUpperAll', 'NcScoredOnce', '
 
 def base_cfg(nr, nc, *, gens='NoGens', perml=0, kmax=3, methods='MOne', mode='value', valmax=0, candmax=0,
              masks='MaskNone', bys='BySubj', thin_s=1, thin_g=1, xforms='XfNone', byfilter='AnyBy', variants='Var1',
-             cvcat='NoCat'):
+             cvcat='NoCat', thin_r=1):
     return '\n'.join([
         'CONSTANTS', f'  NR = {nr}', f'  NC = {nc}', '  MaxObj = 1', '  MaxRows = 9', '  MaxPats = 9', '  Depth = 0',
         '  NanPairs <- NanPairsNone', '  ArgLevel = 2', '  EmitMod = 1', '  Ops <- NoOps', f'  Gens <- {gens}',
         f'  PermLevel = {perml}', f'  KMax = {kmax}', f'  Methods <- {methods}', f'  Mode = "{mode}"',
         f'  ValMax = {valmax}', f'  CandMax = {candmax}', f'  Masks <- {masks}', f'  GroupBys <- {bys}',
-        f'  ThinS = {thin_s}', f'  ThinG = {thin_g}', f'  Xforms <- {xforms}', f'  ByFilter <- {byfilter}',
+        f'  ThinS = {thin_s}', f'  ThinG = {thin_g}', f'  ThinR = {thin_r}', f'  Xforms <- {xforms}', f'  ByFilter <- {byfilter}',
         f'  SrcVariants <- {variants}', f'  CvCat <- {cvcat}']) + '\n'
 
 
@@ -283,9 +283,9 @@ def run(ctx):
                   thin_s=3, thin_g=7)
     else:
         run_value(ctx, 'v_2x3', 2, 3, nrand, methods='MAll', valmax=3, candmax=4, thin_s=7, xforms='XfFew')
-        run_value(ctx, 'v_3x3', 3, 3, nrand, methods='MAll', valmax=2, candmax=3, bys='ByBoth', thin_s=7, thin_g=23)
+        run_value(ctx, 'v_3x3', 3, 3, nrand, methods='MAll', valmax=2, candmax=3, bys='ByBoth', thin_s=11, thin_g=47)
         run_value(ctx, 'v_mask_a', 2, 4, nrand, methods='MAll', valmax=2, candmax=2, masks='Mask4a', thin_s=11)
-        run_value(ctx, 'v_cv_3x4', 3, 4, nrand, methods='MAll', valmax=1, thin_s=397, cvcat='CvCat34', gens='GensAll',
+        run_value(ctx, 'v_cv_3x4', 3, 4, nrand, methods='MAll', valmax=1, thin_r=5, thin_s=7, cvcat='CvCat34', gens='GensAll',
                   perml=2)
     ctx.exhaustive = thorough
     if thorough:
@@ -294,5 +294,5 @@ def run(ctx):
         run_proto(ctx, 'p_3x6', 3, 6, gens='GensNested', variants='Var1', kmax=2, byfilter='ByFew')
     else:
         run_proto(ctx, 'p_3x3', 3, 3, gens='GensRdmNested', variants='Var13', kmax=3)
-        run_proto(ctx, 'p_3x4_random', 3, 4, gens='GensRandom', variants='Var13', kmax=3, byfilter='ByFew')
+        run_proto(ctx, 'p_3x4_random', 3, 4, gens='GensRandom', variants='Var13', kmax=3, byfilter='ByTwo')
     run_traces(ctx, 1500 if thorough else 240)
